@@ -553,6 +553,25 @@ func (cx *c03ctx) exec(line string) {
 		}
 		w = sw
 	}
+	// `vseq <r|c> <cell> <n> {<kind> <raw input>}^n`: SetSheetRow / SetSheetCol with typed values; the model
+	// computes the stored tokens of every element (GridPayload.setSheetCells)
+	if w[0] == "vseq" {
+		n, _ := strconv.Atoi(w[3])
+		if len(w) != 4+2*n {
+			emit(line, "bad-op")
+			return
+		}
+		sw := []string{"seq", w[1], w[2], w[3]}
+		for i := 0; i < n; i++ {
+			one, ok := c03valToSet([]string{"val", w[4+2*i], w[2], w[5+2*i]})
+			if !ok {
+				emit(line, "bad-op")
+				return
+			}
+			sw = append(sw, one[1], one[3], one[4], one[5])
+		}
+		w = sw
+	}
 	switch w[0] {
 	case "new":
 		if cx.f != nil {
@@ -743,7 +762,37 @@ func (cx *c03ctx) exec(line string) {
 				}
 				r.Fail(sig, fmt.Sprintf("SetCellHyperLink(%s, %q) then GetCellHyperLink(%s) = %v %q (%v)", sp, link, sp, found, target, err), ln, cx.replay())
 			}
+			// cell names are case-insensitive: the other spellings of the cell report the same link
+			for _, other := range []string{c03name(c, ro), strings.ToLower(c03name(c, ro))} {
+				if f2, t2, e2 := cx.f.GetCellHyperLink(c03Sheet, other); e2 != nil || !f2 || t2 != link {
+					r.Fail("hyperlink:readback-other-spelling", fmt.Sprintf("SetCellHyperLink(%s, %q) then GetCellHyperLink(%s) = %v %q (%v)", sp, link, other, f2, t2, e2), ln, cx.replay())
+				}
+			}
 		}
+	case "hlrm":
+		sp := unhx(w[1])
+		ps := cx.watch()
+		before := cx.observe(ps)
+		st := c03call(func() error { return cx.f.SetCellHyperLink(c03Sheet, sp, "", "None") })
+		ln := emit(line, withDump(st))
+		cx.frameWrite(ln, ps, before, nil, "hlrm")
+		if st == "ok" {
+			if found, _, err := cx.f.GetCellHyperLink(c03Sheet, sp); err != nil || found {
+				r.Fail("hyperlink:remove", fmt.Sprintf("link removed from %s but GetCellHyperLink still finds one (%v)", sp, err), ln, cx.replay())
+			}
+		}
+	case "hlget":
+		sp := unhx(w[1])
+		var found bool
+		var target string
+		st := c03call(func() error { var e error; found, target, e = cx.f.GetCellHyperLink(c03Sheet, sp); return e })
+		if st == "ok" {
+			st = "nolink"
+			if found {
+				st = "link " + hx(target)
+			}
+		}
+		emit(line, st)
 	case "mrg", "unm":
 		// both functions decode topLeft + ":" + bottomRight as one range reference
 		s1, s2 := unhx(w[1]), unhx(w[2])
@@ -815,41 +864,45 @@ func (cx *c03ctx) exec(line string) {
 			cx.merges = rep
 		}
 	case "gm":
+		// GetMergeCells reports the normalised ranges. Whether it also replaces the worksheet's own list
+		// (tree before the purity fix) or works on a copy is the code's business: the stored list is read back
+		// from the dump in both cases, and the model follows the extracted fact `getMergeCellsInPlace`.
+		// (That a read leaves the worksheet alone is C04's oracle.)
 		ps := cx.watch()
 		before := cx.observe(ps)
 		var got []xl.MergeCell
-		viaHook := cx.unstable
-		var st string
-		if viaHook {
-			st = c03call(func() error { return xl.VerifC03MergeOverlap(cx.f, c03Sheet) })
-			r.Stat("gm:via-hook")
-		} else {
-			st = c03call(func() error { var e error; got, e = cx.f.GetMergeCells(c03Sheet); return e })
-			r.Stat("gm:via-api")
+		st := c03call(func() error { var e error; got, e = cx.f.GetMergeCells(c03Sheet); return e })
+		var api []string
+		var rep [][4]int
+		for _, m := range got {
+			api = append(api, m[0])
+			if q, err := xl.VerifRangeRefToCoordinates(m[0]); err == nil && len(q) == 4 {
+				rep = append(rep, [4]int{q[0], q[1], q[2], q[3]})
+			}
+		}
+		okGm := st == "ok"
+		if okGm {
+			st = "gm " + strings.Join(api, ";")
 		}
 		res := withDump(st)
 		ln := emit(line, res)
-		refs, rep := c03dumpMerges(res)
-		cx.frameMerges(ln, ps, before, cx.observe(ps), rep, "gm")
+		_, stored := c03dumpMerges(res)
+		cx.frameMerges(ln, ps, before, cx.observe(ps), stored, "gm")
 		cx.frameStyles(ln, ps, "gm")
-		if st == "ok" && !viaHook {
-			var api []string
-			for _, m := range got {
-				api = append(api, m[0])
-			}
-			if strings.Join(api, ";") != strings.Join(refs, ";") {
-				r.Fail("gm:api-vs-dump", fmt.Sprintf("GetMergeCells reports %v, internal list %v", api, refs), ln, cx.replay())
-			}
+		if okGm {
 			for _, m := range got {
 				want, _ := cx.f.GetCellValue(c03Sheet, m.GetStartAxis())
 				if m.GetCellValue() != want {
 					r.Fail("gm:value", fmt.Sprintf("GetMergeCells value of %s is %q, anchor reads %q", m[0], m.GetCellValue(), want), ln, cx.replay())
 				}
 			}
-		}
-		if st == "ok" {
 			cx.checkReported(ln, rep, nil)
-			cx.merges = rep
+			if len(stored) == len(cx.merges) {
+				r.Stat("gm:stored-list-kept")
+			} else {
+				r.Stat("gm:stored-list-replaced")
+			}
+			cx.merges = stored
 		}
 	case "seq":
 		sp, c, ro, ok := c03decode(w[2])
@@ -867,6 +920,9 @@ func (cx *c03ctx) exec(line string) {
 			case "int":
 				x, _ := strconv.ParseInt(unhx(v.b), 10, 64)
 				vals = append(vals, int(x))
+			case "uint":
+				x, _ := strconv.ParseUint(unhx(v.b), 10, 64)
+				vals = append(vals, x)
 			case "bool":
 				vals = append(vals, unhx(v.b) == "1")
 			case "str":
@@ -1437,24 +1493,39 @@ func (g *c03gen) transcript(mode, nOps int) {
 			}
 			var sb strings.Builder
 			for j := 0; j < n; j++ {
-				switch rng.Intn(4) {
+				switch rng.Intn(5) {
 				case 0:
-					sb.WriteString(" int.val tv ~ " + hx(strconv.Itoa(rng.Range(-5, 500))))
+					sb.WriteString(" int " + strconv.Itoa(rng.Range(-5, 500)))
 				case 1:
-					sb.WriteString(" bool.val tv b " + hx(strconv.Itoa(rng.Intn(2))))
+					sb.WriteString(" bool " + strconv.Itoa(rng.Intn(2)))
 				case 2:
-					sb.WriteString(" str.val sst " + c03tokS(c03strings[rng.Intn(len(c03strings))]) + " ~")
+					sb.WriteString(" str " + hx(c03strings[rng.Intn(len(c03strings))]))
+				case 3:
+					sb.WriteString(" uint " + strconv.Itoa(rng.Range(0, 70000)))
 				default:
-					sb.WriteString(" dflt.nil clr ~ ~")
+					sb.WriteString(" nil ~")
 				}
 			}
-			cx.exec(fmt.Sprintf("seq %s %s %d%s", dir, hx(cell), n, sb.String()))
+			cx.exec(fmt.Sprintf("vseq %s %s %d%s", dir, hx(cell), n, sb.String()))
 		case k < mergeW+40:
 			if l := g.timeLine(cell); l != "" {
 				cx.exec(l)
 			}
-		case k < mergeW+42:
-			cx.exec(fmt.Sprintf("hl %s %s", hx(cell), hx("Sheet1!A1")))
+		case k < mergeW+46:
+			switch rng.Intn(4) {
+			case 0:
+				cx.exec("hlget " + hx(cell))
+			case 1:
+				cx.exec("hlrm " + hx(cell))
+				cx.exec("hlget " + hx(cell))
+			default:
+				cx.exec(fmt.Sprintf("hl %s %s", hx(cell), hx(fmt.Sprintf("Sheet1!A%d", rng.Range(1, 9)))))
+				// read back through the other spellings of the same cell, and at another position
+				cx.exec("hlget " + hx(c03name(c, r)))
+				cx.exec("hlget " + hx(strings.ToLower(c03name(c, r))))
+				c2, r2 := g.pos(mode)
+				cx.exec("hlget " + hx(g.spell(c2, r2)))
+			}
 		default:
 			cx.exec(strings.Replace(g.payload(), "CELL", hx(cell), 1))
 		}
@@ -1493,14 +1564,17 @@ var c03witnesses = [][]string{
 	{"new 1", "mrg B4 C5", "mrg C2 E4", "gm"},                             // cross
 	{"new 1", "mrg A2 C2", "unm B1 B3", "gm"},                                                // unmerge by a crossing range
 	{"new 2", "set str A1 sst " + c03tokS("anchor") + " ~", "set int B2 tv ~ " + hx("7"), "mrg A1 B2", "get B2", "set str b2 sst " + c03tokS("via b2") + " ~", "get A1", "obs 1 1 3 3"},
+	{"new 1", "hl b2 " + hx("Sheet1!A40"), "hlget B2", "hl C3 " + hx("Sheet1!A1"), "hl c3 " + hx("Sheet1!A2"), "hlget C3", "hlget c3", "hlrm C3", "hlget c3", "hlget $b$2"}, // no merged cells: spellings still denote one cell
 	{"new 1", "mrg A1 B2", "TIME B2", "gsty A1", "gsty B2"},                                  // date style lands on the raw cell
-	{"new 1", "mrg A1 B2", "hl B2 " + hx("Sheet1!C3")},                                       // hyperlink read is not redirected
+	{"new 1", "mrg A1 B2", "hl B2 " + hx("Sheet1!C3"), "hlget A1", "hlget b2", "hlget $A$2", "hlget C1", "hl a1 " + hx("Sheet1!D4"), "hlget B1",
+		"hl C1 " + hx("x"), "unm A1 A1", "hlget B2", "hlget A1", "hlrm A1", "hlget A1", "hlget C1", "hlrm XFE1", "hlget A0"},                                       // hyperlink read is not redirected
 	{"new 1", "frm A1 " + hx("1+1"), "TIME A1", "frm B1 " + hx("2+2"), "set rich B1 sst R" + hx("rt") + " ~"},
 	{"new 1", "set str A1 sst " + c03tokS("_x0041_") + " ~", "set str A2 sst " + c03tokS("_x005F_x0041_") + " ~", "set str A3 sst " + c03tokS("a\x01b_x000D_") + " ~", "get A1", "get A2"},                                           // C01's look-alike
 	{"new 1", "set str.x5 A1 sst " + c03tokS(strings.Repeat("y", 32767)) + " ~", "set str A2 sst " + c03tokS(strings.Repeat("é", 32767)) + " ~"},
 	{"new 1", "set int XFD1048576 tv ~ " + hx("1"), "get XFD1048576", "get XFD1048575", "get A1", "set int A1048576 tv ~ " + hx("2"), "get A1048576"},
 	{"new 1", "set int XFE1 tv ~ " + hx("1"), "set int A1048577 tv ~ " + hx("1"), "set int A0 tv ~ " + hx("1"), "mrg A1 XFE2", "sty A1 A0 0", "get $A$1", "get A01", "frm 1A " + hx("1")},
 	{"new 1", "seq r XFC1 4 int.val tv ~ " + hx("1") + " int.val tv ~ " + hx("2") + " int.val tv ~ " + hx("3") + " int.val tv ~ " + hx("4")},
+	{"new 1", "vseq r XFC1 4 int 1 str " + hx("two") + " bool 1 nil ~", "vseq c B1048575 3 int 7 uint 8 str " + hx("_x0041_"), "vseq r A1 3 str - int -1 nil ~"},
 	{"new 1", "seq c A1048575 3 int.val tv ~ " + hx("1") + " int.val tv ~ " + hx("2") + " int.val tv ~ " + hx("3")},
 	{"new 2", "sty B2 C3 5", "sty C3 B2 1", "sty B2 B2 -1", "set int B2 tv ~ " + hx("5"), "gsty B2", "set dflt.nil B2 clr ~ ~", "gsty B2"},
 	{"new 1", "val str A1 " + hx(strings.Repeat("y", 32772)), "val str A2 " + hx(strings.Repeat("é", 32767)+"zz"), "val str A3 " + hx("_x0041_"),
@@ -1520,9 +1594,9 @@ func c03encodeWitness(g *c03gen, line string) string {
 	case "mrg", "unm", "sty":
 		enc(1)
 		enc(2)
-	case "set", "seq", "val":
+	case "set", "seq", "val", "vseq":
 		enc(2)
-	case "get", "gsty", "frm", "hl":
+	case "get", "gsty", "frm", "hl", "hlget", "hlrm":
 		enc(1)
 	case "TIME":
 		// 2023-11-14T22:13:20Z; the serial text is C19's subject, fixed here
